@@ -1,4 +1,5 @@
 import Revm.Proofs.BundleInvRevert
+import Revm.Proofs.BundleRevMain
 /-! C17 — bundle reverts record the exact values before each merged transition.
 
 Full statements: `Spec.Bundle.RevertKCorrectStatement` (per-block pre-values, parameterised by the reading
@@ -15,8 +16,24 @@ PROVED in the region outside finding F1: `revert_k_correct_literal_partial` — 
 reading (`Destroyed` = 0, `RevertToSlot::to_previous_value`) for every block in which no wiping revert lists
 a `Destroyed` slot (explicit decidable hypothesis `literalOk`). F1 (`revert_k_literal_counterexample`) shows
 the literal statement `FullStatementRevertK` is false of the code without that hypothesis.
-NOT proved: the second sentence (`revert(j)` = prefix bundle). It is false across a storage-wiping revert
-(F2a, F2b, counterexample theorems); outside it is carried by the correspondence oracle (`revert`).
+PROVED in the region outside findings F2a / F2b: the second sentence — `revert_latest_correct_partial` (one
+`revert_latest` step) and `revert_j_equals_prefix_partial` (`revert(j)` for every j, also j > number of groups; by
+induction on j from the step): for every database, both state-clear settings, every EVM-reachable history and merge
+schedule and both `OriginalValuesKnown` settings, the changeset of the reverted bundle applied to the pre-bundle
+state is the reference state after the first n - j groups, hence (`revert_j_equals_prefix_bundle_partial`, with
+C16) the same state the changeset of the bundle built from only the first n - j groups gives. Region = explicit
+decidable hypothesis `Spec.Bundle.revertOk b j`: every storage-WIPING `AccountRevert` met by the j steps lists no
+slot and is applied to a bundle account that holds no slot entries (`wipeOk`); `noWipeInLast` (no wiping revert in
+the last j blocks) is a simpler sufficient condition (`no_wipe_in_region`). The proof is time-indexed: the forward
+bundle state and reference state after every group (`RevChain`), and per address the fact that the recorded
+`AccountRevert` leads from any reverted entry matching the forward entry after the group to one matching the
+forward entry before it (`RInv`, `rev_acct`; info revert DoNothing / DeleteIt / RevertTo, per-slot `Some v` /
+`Destroyed`, `previous_status`). `BundleAccount::revert` ignores `wipe_storage`; F2a (wiping revert that lists
+slots: the restored entries lose their original values) and F2b (wiping revert applied to an account holding stale
+entries) show that neither half of `wipeOk` can be dropped (`region_excludes_findings`,
+`revert_j_counterexample_known_yes`, `revert_j_counterexample_known_no`): `FullStatementRevertJ` is false of the code.
+Literal equality of the two changesets is not claimed (a reverted bundle keeps unchanged entries the prefix bundle
+never had; with `OriginalValuesKnown::No` they are listed): equality is of the described states.
 Proved for `revert(n)`: its effect on the revert list. -/
 namespace Revm.Props.C17
 open Revm.Model.Bundle Revm.Spec.Bundle Revm.Proofs.Bundle
@@ -56,6 +73,71 @@ theorem revert_block_maps_back (dbr : Bool) (blk : BMap ARevert) (p0 before afte
     (h : BlockSem blk p0 before after) (hd : dbr = true ∨ literalOk blk = true) :
     PlainEq (applyRevertBlock dbr p0 (revertBlockToPlain blk) after) before :=
   revert_block_correct dbr blk p0 before after h hd
+
+/-- **C17, second sentence, one step, region outside F2a / F2b**: one `revert_latest` on the bundle built from
+groups 1..n (pop the last block, apply each `AccountRevert` through `BundleAccount::revert`) leaves a bundle whose
+changeset, with either `OriginalValuesKnown`, applied to the pre-bundle state gives the reference state after
+groups 1..n-1. Missing for the full statement: nothing provable — without `revertStepOk` it is false (F2a). -/
+theorem revert_latest_correct_partial (db : BMap Info) (sc : Bool) (p0 : Plain) (h : List Group) (known : Bool)
+    (hdb : dbMatches db p0) (hwf : plainWF p0) (hr : reachHistory sc p0 h = true) :
+    ∃ l, runHistory { db := db, sc := sc } p0 h = some l ∧
+      ∀ s r, l.getLast? = some (s, r) → revertStepOk s.bundle = true →
+        ∀ tgt, (p0 :: l.map (·.2))[h.length - 1]? = some tgt →
+          PlainEq (applyChangeset (toPlainState (revertLatest s.bundle).1 known) p0) tgt :=
+  revert_latest_proof db sc p0 h known hdb hwf hr
+
+/-- **C17, second sentence, region outside F2a / F2b**: `FullStatementRevertJ` with the extra hypothesis
+`revertOk s.bundle j` (every j, also beyond the number of groups: then the target is the pre-bundle state).
+Missing for the full statement: nothing provable — without `revertOk` it is false (F2a, F2b below). -/
+theorem revert_j_equals_prefix_partial (db : BMap Info) (sc : Bool) (p0 : Plain) (h : List Group) (j : Nat)
+    (known : Bool) (hdb : dbMatches db p0) (hwf : plainWF p0) (hr : reachHistory sc p0 h = true) :
+    ∃ l, runHistory { db := db, sc := sc } p0 h = some l ∧
+      ∀ s r, l.getLast? = some (s, r) → revertOk s.bundle j = true →
+        ∀ tgt, (p0 :: l.map (·.2))[h.length - j]? = some tgt →
+          PlainEq (applyChangeset (toPlainState (revertN s.bundle j) known) p0) tgt :=
+  revert_j_proof db sc p0 h j known hdb hwf hr
+
+/-- the same against the bundle built from only the earlier groups: running the first n - j groups gives the
+prefix of the run, and the two changesets describe the same state -/
+theorem revert_j_equals_prefix_bundle_partial (db : BMap Info) (sc : Bool) (p0 : Plain) (h : List Group) (j : Nat)
+    (known : Bool) (hdb : dbMatches db p0) (hwf : plainWF p0) (hr : reachHistory sc p0 h = true) :
+    ∃ l, runHistory { db := db, sc := sc } p0 h = some l ∧
+      runHistory { db := db, sc := sc } p0 (h.take (h.length - j)) = some (l.take (h.length - j)) ∧
+      ∀ s r, l.getLast? = some (s, r) → revertOk s.bundle j = true →
+        PlainEq (applyChangeset (toPlainState (revertN s.bundle j) known) p0)
+          (applyChangeset (toPlainState (prefixBundle l (h.length - j)) known) p0) :=
+  revert_j_prefix_proof db sc p0 h j known hdb hwf hr
+
+/-- no storage-wiping revert in the last j blocks ⇒ inside the region -/
+theorem no_wipe_in_region (b : BState) (j : Nat) (h : noWipeInLast b j = true) : revertOk b j = true :=
+  noWipe_revertOk j b h
+
+/-- the region is satisfiable and wider than "no wipe": `f4` history plus a write (no destruction) is inside for
+j = 1, 2, 3; in F2b's history, extended by nothing, `revert(1)` (re-creation reverted, no wipe) is inside; a
+code-only contract destroyed in the last group is reverted exactly although its revert wipes
+(`noWipeInLast` false, `revertOk` true) -/
+example :
+    (Wit.runLast { db := Wit.f4db, sc := true } Wit.f4p0
+        (Wit.f4h1 ++ [[[(2, Wit.ea 3 1 1 false false [(1, ⟨7, 0⟩)])]]])).map (fun r =>
+      (revertOk r.1.bundle 1, revertOk r.1.bundle 2, revertOk r.1.bundle 3)) = some (true, true, true) ∧
+    (Wit.runLast { db := Wit.f2bdb, sc := true } Wit.f2bp0 Wit.f2bh).map (fun r => revertOk r.1.bundle 1) = some true ∧
+    (Wit.runLast { db := Wit.f2bdb, sc := true } Wit.f2bp0 [[[(3, Wit.ea 0 1 1 false true [])]]]).map (fun r =>
+      (noWipeInLast r.1.bundle 1, revertOk r.1.bundle 1,
+       (applyChangeset (toPlainState (revertN r.1.bundle 1) false) Wit.f2bp0).slot 3 1,
+       (applyChangeset (toPlainState (revertN r.1.bundle 1) true) Wit.f2bp0).acct 3)) =
+      some (false, true, 9, some ⟨0xb1, 1, 1, false⟩) := by decide
+
+/-- neither half of `wipeOk` can be dropped: F2a's last block holds a wiping revert that lists a slot
+(`revertOk _ 1 = false`); in F2b the wiping revert lists nothing but is applied, at the second step, to an account
+holding a stale entry (`revertOk _ 1 = true`, `revertOk _ 2 = false`) — and in both the statement fails (the two
+counterexample theorems below) -/
+theorem region_excludes_findings :
+    (Wit.runLast { db := Wit.f2adb, sc := true } Wit.f2ap0 Wit.f2ah).map (fun r => revertOk r.1.bundle 1) = some false ∧
+    (Wit.runLast { db := Wit.f2bdb, sc := true } Wit.f2bp0 Wit.f2bh).map (fun r =>
+      (revertOk r.1.bundle 1, revertOk r.1.bundle 2,
+       r.1.bundle.reverts.map (fun blk => blk.map (fun e => (e.2.wipe, e.2.storage.isEmpty))))) =
+      some (true, false, [[(true, true)], [(false, false)]]) := by
+  decide
 
 /-- `revert(0)` is the identity -/
 theorem revert_zero (b : BState) : revertN b 0 = b := rfl
